@@ -114,7 +114,7 @@ def job_parse(ses, proto, prelude, which):
 
 
 def jobs_for(which, tier):
-    sizes = [(0, 0), (1, 0), (2, 0), (1, 1), (2, 2)] if tier == 'quick' else [(0, 0), (1, 0), (2, 0), (3, 0), (1, 1), (2, 2), (3, 3), (0, 2)]
+    sizes = [(0, 0), (1, 0), (2, 0), (0, 1), (1, 1), (2, 2)] if tier == 'quick' else [(0, 0), (1, 0), (2, 0), (3, 0), (1, 1), (2, 2), (3, 3), (0, 2)]
     js = [(job_verify_claims, (n, m, which)) for n, m in sizes]
     js += [(job_parse, (p, pre, which)) for p in PROTOCOLS for pre in (False, True)]
     return js
